@@ -5,6 +5,7 @@ package main
 import (
 	"bytes"
 	"encoding/json"
+	"fmt"
 	"math"
 
 	"github.com/twpayne/go-geom"
@@ -270,6 +271,25 @@ func digitsHandler(raw json.RawMessage) map[string]any {
 				lits = append(lits, map[string]any{"src": "wkt", "t": "<error: " + err.Error() + ">"})
 			} else {
 				add("wkt", wktLits(text), 0, 2)
+				// what the library's own parser reads back (bit patterns of the first and third ordinate)
+				row["inbits"] = fmt.Sprintf("%016x", math.Float64bits(f))
+				own := []string{}
+				if ev, _ := call(func() {
+					g2, perr := wkt.Unmarshal(text)
+					if perr != nil {
+						own = append(own, "error")
+						return
+					}
+					fc := g2.FlatCoords()
+					for _, k := range []int{0, 2} {
+						if k < len(fc) {
+							own = append(own, fmt.Sprintf("%016x", math.Float64bits(fc[k])))
+						}
+					}
+				}); ev != "ok" {
+					own = append(own, "panic")
+				}
+				row["ownbits"] = own
 			}
 			ls := geom.NewLineStringFlat(geom.XY, []float64{f, 0, math.Abs(f) + 1, 1})
 			b, err := geojson.Marshal(ls, geojson.EncodeGeometryWithBBox(), geojson.EncodeGeometryWithMaxDecimalDigits(c.D))
